@@ -20,11 +20,12 @@ use inputlayer::{Config, Rule};
 // ---------------------------------------------------------------- AST -> wire
 fn xhex(s: &str) -> String { format!("x{}", hex(s.as_bytes())) }
 fn unxhex(s: &str) -> Option<String> { String::from_utf8(unhex(s.strip_prefix('x')?)?).ok() }
-/// bits, `{}` text, and what serde_json (as the catalog file uses it) reads back for the value
+/// bits, `{:?}` text (what `Display for Term` writes), and what serde_json (as the catalog file uses it)
+/// reads back for the value
 fn fwire(f: f64, out: &mut Vec<String>) {
-    out.push(format!("{:016x}", f.to_bits())); out.push(xhex(&format!("{}", f)));
+    out.push(format!("{:016x}", f.to_bits())); out.push(xhex(&format!("{:?}", f)));
     match serde_json::to_string(&f).ok().and_then(|j| serde_json::from_str::<f64>(&j).ok()) {
-        Some(g) => { out.push(format!("{:016x}", g.to_bits())); out.push(xhex(&format!("{}", g))); }
+        Some(g) => { out.push(format!("{:016x}", g.to_bits())); out.push(xhex(&format!("{:?}", g))); }
         None => { out.push("-".into()); out.push("-".into()); }
     }
 }
@@ -235,17 +236,29 @@ pub fn exec(req: &str) -> String {
     let op = it.next().unwrap_or("");
     match op {
         "c09.builtins" => exec_builtins(),
+        // a source with a non-finite float constant (`inf`, `NaN`, overflow) must not parse
+        "c09.reject" => {
+            let src = match it.next().and_then(unxhex) { Some(s) => s, None => return "bad-request".into() };
+            if inputlayer::parse_rule(&src).is_ok() { "accepted".into() } else { "rejected".into() }
+        }
+        // tooling (not generated): print the request line for a source text, e.g. to build corpus files
+        "c09.wire" => {
+            let src = match it.next().and_then(unxhex) { Some(s) => s, None => return "bad-request".into() };
+            match inputlayer::parse_rule(&src).ok().and_then(|r| wire_rule(&r)) { Some(w) => format!("{} {w}", xhex(&src)), None => "unparsed-or-unsupported".into() }
+        }
         "c09.lit" => {
-            // what the re-parse of the printed literal yields: `s.parse::<i64>()` first (parser/mod.rs:555, :856)
+            // the literal as the real printer writes it, re-read by the real term parser
             let b = match it.next().and_then(|x| u64::from_str_radix(x, 16).ok()) { Some(b) => b, None => return "bad-request".into() };
-            let text = format!("{}", f64::from_bits(b));
-            // and the real term parser must agree with that classification for finite values
-            let cls = if text.parse::<i64>().is_ok() { "int" } else { "float" };
-            if f64::from_bits(b).is_finite() {
-                let via_parser = match inputlayer::parser::parse_term(&text) { Ok(Term::Constant(_)) => "int", Ok(Term::FloatConstant(_)) => "float", _ => "other" };
-                if via_parser != cls { return format!("parse_term-disagrees:{via_parser}"); }
+            let f = f64::from_bits(b);
+            if !f.is_finite() { return "bad-request".into(); }
+            let text = Term::FloatConstant(f).to_string();
+            let in_arith = inputlayer::ast::ArithExpr::from_float(f).to_string();
+            if in_arith != text { return format!("term-and-arith-print-differently:{text}:{in_arith}"); }
+            match inputlayer::parser::parse_term(&text) {
+                Ok(Term::Constant(_)) => "int".into(),
+                Ok(Term::FloatConstant(g)) => if g.to_bits() == b { "float".into() } else { "float-other-bits".into() },
+                _ => "other".into(),
             }
-            cls.into()
         }
         "c09.rt" | "c09.e2e" => {
             let src = match it.next().and_then(unxhex) { Some(s) => s, None => return "bad-request".into() };
@@ -358,7 +371,7 @@ const E2E: [&str; 23] = [
 ];
 
 fn gen_lits(ctx: &mut Ctx, out: &mut Vec<String>) {
-    let mut push = |f: f64, ctx: &mut Ctx, k: &str| { out.push(format!("c09.lit {:016x}", f.to_bits())); ctx.count(k); };
+    let mut push = |f: f64, ctx: &mut Ctx, k: &str| { if f.is_finite() { out.push(format!("c09.lit {:016x}", f.to_bits())); ctx.count(k); } };
     // boundaries of "integral and within i64": +-2^63, their neighbours, 2^52..2^54, halves, zeros, subnormals, specials
     for e in [0i32, 1, 2, 10, 31, 32, 51, 52, 53, 54, 61, 62, 63, 64, 100, 1023] {
         let p = 2f64.powi(e);
@@ -380,6 +393,11 @@ fn gen_lits(ctx: &mut Ctx, out: &mut Vec<String>) {
 pub fn gen(ctx: &mut Ctx) -> Vec<String> {
     let mut out = vec!["c09.builtins".to_string()];
     gen_lits(ctx, &mut out);
+    for nf in ["inf", "-inf", "NaN", "infinity", "1e999", "nan", "-1e400"] {
+        for t in ["p(X, Z) <- q(X, Y), Z = Y * {}", "p(X, Z) <- q(X, Y), Z = {} + Y", "p(X) <- q(X, Y), Y > 1 - {}", "p(top_k_threshold<3, {}, S>) <- q(N, S)", "p(within_radius<{}, D>) <- q(N, D)"] {
+            out.push(format!("c09.reject {}", xhex(&t.replace("{}", nf)))); ctx.count("reject_nonfinite");
+        }
+    }
     // (1) chosen shapes: every literal kind in every position
     let mut lits: Vec<String> = vec![];
     lits.extend(FLOATS.iter().map(|s| s.to_string())); lits.extend(INTS.iter().map(|s| s.to_string())); lits.extend(STRS.iter().map(|s| s.to_string()));
